@@ -8,12 +8,12 @@ Definition dec_qdesc (l : list Z) : qdesc * list Z :=
   match l with a :: b :: c :: t => (mkQD a b c, t) | _ => (qd_default, []) end.
 Definition decode_qcase (inp : list Z) : qcase :=
   match inp with
-  | nq :: t =>
+  | nq :: first :: t =>
       let '(ds, r1) := decode_seq dec_qdesc t in
       let '(ops, r2) := decode_seq dec_pair r1 in
       let '(sc, _) := decode_seq dec_pair r2 in
-      mkQCase nq ds ops sc
-  | _ => mkQCase 0 [] [] []
+      mkQCase nq (zb first) ds ops sc
+  | _ => mkQCase 0 true [] [] []
   end.
 Definition dec_qsnap (nq np : nat) (l : list Z) : qsnap * list Z :=
   let '(used, r1) := decode_many dec_pair nq l in
@@ -32,7 +32,7 @@ Definition nontrivial_case (inp : list Z) : bool := nontrivial_quota (decode_qca
    pod terminated without being deleted (the live manager keeps charging it) *)
 Definition finding_sig (inp obs : list Z) : Z :=
   let c := decode_qcase inp in
-  if (prop_case inp obs =? 8) && negb (no_terminated c) then 1 else 0.
+  if (prop_case inp obs =? 8) && negb (no_terminated c) && Spec.eq_listZ (run_case inp) obs then 1 else 0.
 
 Require Extraction.
 Require Import ExtrOcamlBasic.
